@@ -196,7 +196,12 @@ def check_slots(ctx):
     ctx.unit('functions', 6)
     fi = m['compile_descriptors_and_extend_slots']
     src = unparse(fi.node)
-    if 'self.slots +=' in src and 'field.descriptor._compile(' in src and 'for (name, field) in self.fields' in src.replace('name, field', '(name, field)').replace('((', '(').replace('))', ')'):
+    from ..model import loop_overwrites
+    lost = loop_overwrites(fi.node)
+    if lost:
+        v_, loop_, asg_ = lost[0]
+        ctx.violation(rule, fi, 'compile_descriptors_and_extend_slots: %s' % stmt_text(asg_)[:90], 'the slot names of each described field replace those of the one before (%s is assigned, not extended, inside the loop): only the last described field gets its flag slot, so setting / forcing any other raises AttributeError -- which the constructor swallows, ignoring the keyword' % v_, asg_.lineno, clause='b', witness=True)
+    elif 'self.slots +=' in src and 'field.descriptor._compile(' in src and 'for (name, field) in self.fields' in src.replace('name, field', '(name, field)').replace('((', '(').replace('))', ')'):
         ctx.holds(rule, fi, 'self.slots += descriptor._compile(...) for every described field', 'the flag slot is declared', fi.node.lineno, clause='b')
     elif 'self.slots' in src and '_compile(' in src:
         ctx.holds(rule, fi, 'self.slots extended with descriptor._compile(...)', 'the flag slot is declared', fi.node.lineno, clause='b')
